@@ -933,18 +933,25 @@ def inline_new_helpers(tree, modname):
     ref = reference().get(modname)
     if ref is None:
         return []
-    quads = def_paths(tree)
-    new = {q: (n, owner, kind) for q, n, owner, kind in quads if q not in ref}
-    if not new:
-        return []
-    inl = _Inliner(tree, modname, {q: n for q, n, _, _ in quads}, new)
-    inl.run()
-    if any(l.startswith(("inlined", "hoisted")) for l in inl.log):
+    log = []
+    # to a fixed point: a callback that was handed to an inlined higher-order helper is now called directly, and can
+    # be inlined in the next round
+    for _round in range(3):
+        quads = def_paths(tree)
+        new = {q: (n, owner, kind) for q, n, owner, kind in quads if q not in ref}
+        if not new:
+            break
+        inl = _Inliner(tree, modname, {q: n for q, n, _, _ in quads}, new)
+        inl.run()
+        done = any(l.startswith(("inlined", "hoisted")) for l in inl.log)
+        log += inl.log if (done or not log) else []
+        if not done:
+            break
         for n in ast.walk(tree):
             if isinstance(n, FUNC):
                 _fold_temps(n)
     ast.fix_missing_locations(tree)
-    return inl.log
+    return log
 
 
 # ------------------------------------------------------------------ pass-through wrappers
@@ -1113,4 +1120,214 @@ def strip_passthrough_wrappers(tree, modname):
             return arg
 
     T().visit(tree)
+    return log
+
+
+# ------------------------------------------------------------------ flag threading
+def _leaf_arms(node):
+    """The leaf statement lists of an if-tree every path of which ends in a leaf: an if/else whose blocks end either in
+    a further such if/else (after any statements) or in a plain statement; None without a final else."""
+    if not isinstance(node, ast.If) or not node.orelse:
+        return None
+    out = []
+    for block in (node.body, node.orelse):
+        last = block[-1] if block else None
+        if isinstance(last, ast.If) and last.orelse:
+            sub = _leaf_arms(last)
+            if sub is None:
+                return None
+            out.extend(sub)
+        else:
+            out.append(block)
+    return out
+
+
+def _decide(test, flag, value, sentinels):
+    """Outcome of `test` (which mentions only the local `flag`) when flag was just assigned `value`: True/False, or
+    None when it cannot be told from the syntax."""
+    if isinstance(test, ast.UnaryOp) and isinstance(test.op, ast.Not):
+        v = _decide(test.operand, flag, value, sentinels)
+        return None if v is None else (not v)
+    if isinstance(test, ast.Name) and test.id == flag:
+        if isinstance(value, ast.Constant):
+            return bool(value.value)
+        return None
+    if isinstance(test, ast.Compare) and len(test.ops) == 1 and isinstance(test.left, ast.Name) and test.left.id == flag:
+        op, x = test.ops[0], test.comparators[0]
+        eq = None
+        if isinstance(x, ast.Name) and x.id in sentinels:
+            # a unique module-level object(): nothing but the name itself denotes it
+            eq = isinstance(value, ast.Name) and value.id == x.id
+        elif isinstance(x, ast.Constant) and isinstance(value, ast.Constant):
+            eq = (value.value is x.value) if x.value is None or isinstance(x.value, bool) else (
+                type(value.value) is type(x.value) and value.value == x.value)
+        elif isinstance(x, ast.Constant) and x.value is None and isinstance(value, ast.Name) and value.id in sentinels:
+            eq = False
+        if eq is None:
+            return None
+        if isinstance(op, (ast.Is, ast.Eq)):
+            return eq
+        if isinstance(op, (ast.IsNot, ast.NotEq)):
+            return not eq
+    return None
+
+
+def thread_flags(tree):
+    """`if A: ...; flag = True   elif B: ...; flag = True   else: flag = False` immediately followed by
+    `if [not] flag: BODY [else: OTHER]`, the flag being used nowhere else: BODY / OTHER is moved into the arms according
+    to the constant each arm assigns and the flag disappears.  The arms then carry their own conditions as guard facts
+    (a boolean result of an inlined predicate helper no longer hides which case led to which continuation)."""
+    log = []
+    # module-level sentinels: NAME = object(), bound once
+    sentinels = set()
+    counts = {}
+    for st in tree.body:
+        if isinstance(st, ast.Assign):
+            for t in st.targets:
+                if isinstance(t, ast.Name):
+                    counts[t.id] = counts.get(t.id, 0) + 1
+                    if isinstance(st.value, ast.Call) and isinstance(st.value.func, ast.Name) and st.value.func.id == "object" and not st.value.args:
+                        sentinels.add(t.id)
+    sentinels = {n_ for n_ in sentinels if counts.get(n_) == 1}
+
+    def block(stmts, fn):
+        i = 0
+        while i + 1 < len(stmts):
+            a, b = stmts[i], stmts[i + 1]
+            arms = _leaf_arms(a)
+            flag = None
+            if arms and isinstance(b, ast.If):
+                names = {x.id for x in ast.walk(b.test) if isinstance(x, ast.Name)}
+                lasts = [arm[-1] if arm else None for arm in arms]
+                if all(isinstance(l, ast.Assign) and len(l.targets) == 1 and isinstance(l.targets[0], ast.Name) for l in lasts):
+                    tg = {l.targets[0].id for l in lasts}
+                    if len(tg) == 1 and tg <= names:
+                        flag = tg.pop()
+            if flag:
+                vals = [_decide(b.test, flag, arm[-1].value, sentinels) for arm in arms]
+                if all(v is not None for v in vals):
+                    uses = sum(1 for x in ast.walk(fn) if isinstance(x, ast.Name) and x.id == flag)
+                    drop = uses == len(arms) + sum(1 for x in ast.walk(b.test) if isinstance(x, ast.Name) and x.id == flag)
+                    for arm, v in zip(arms, vals):
+                        if drop:
+                            arm.pop()
+                        arm.extend(copy.deepcopy(b.body if v else b.orelse))
+                        if not arm:
+                            arm.append(ast.Pass())
+                    del stmts[i + 1]
+                    log.append("flag %s threaded into %d arms at line %d" % (flag, len(arms), getattr(a, "lineno", 0)))
+                    continue
+            i += 1
+        for st in stmts:
+            for field in ("body", "orelse", "finalbody"):
+                sub = getattr(st, field, None)
+                if isinstance(sub, list) and sub and not isinstance(st, FUNC + (ast.ClassDef,)):
+                    block(sub, fn)
+            for h in getattr(st, "handlers", []) or []:
+                block(h.body, fn)
+
+    for n in ast.walk(tree):
+        if isinstance(n, FUNC):
+            block(n.body, n)
+    if log:
+        ast.fix_missing_locations(tree)
+    return log
+
+
+# ------------------------------------------------------------------ precompiled struct objects
+def desugar_struct_objects(tree):
+    """`S = struct.Struct(FMT)` bound once at module or class level: `S.pack(a)` -> `struct.pack(FMT, a)`,
+    `S.unpack(b)` / `S.unpack_from(b, o)` / `S.pack_into(...)` / `S.iter_unpack(b)` likewise, `S.size` -> the number
+    `struct.calcsize(FMT)`, `S.format` -> FMT; through `cls.S` / `self.S` / `Class.S` for class-level ones.  The rules
+    then see the one spelling the struct module offers for each operation."""
+    import struct as _struct
+
+    log = []
+
+    def struct_fmt(v):
+        if isinstance(v, ast.Call) and ast.unparse(v.func) in ("struct.Struct", "Struct") and len(v.args) == 1 and not v.keywords and isinstance(
+                v.args[0], ast.Constant) and isinstance(v.args[0].value, str):
+            return v.args[0].value
+        return None
+
+    mod_consts, counts = {}, {}
+    for st in tree.body:
+        if isinstance(st, ast.Assign):
+            for t in st.targets:
+                if isinstance(t, ast.Name):
+                    counts[t.id] = counts.get(t.id, 0) + 1
+                    f = struct_fmt(st.value)
+                    if f is not None:
+                        mod_consts[t.id] = f
+    mod_consts = {k: v for k, v in mod_consts.items() if counts.get(k) == 1}
+    cls_consts = {}
+    for c in tree.body:
+        if isinstance(c, ast.ClassDef):
+            cc = {}
+            for st in c.body:
+                if isinstance(st, ast.Assign) and len(st.targets) == 1 and isinstance(st.targets[0], ast.Name):
+                    f = struct_fmt(st.value)
+                    if f is not None:
+                        cc[st.targets[0].id] = f
+            if cc:
+                cls_consts[c.name] = cc
+    if not mod_consts and not cls_consts:
+        return log
+    # a name that is re-bound anywhere (a parameter, a local) is not the constant
+    shadowed = set()
+    for n in ast.walk(tree):
+        if isinstance(n, ast.arg) and n.arg in mod_consts:
+            shadowed.add(n.arg)
+        if isinstance(n, ast.Name) and isinstance(n.ctx, ast.Store) and n.id in mod_consts and counts.get(n.id) == 1:
+            pass
+    stores = {}
+    for n in ast.walk(tree):
+        if isinstance(n, ast.Name) and isinstance(n.ctx, ast.Store) and n.id in mod_consts:
+            stores[n.id] = stores.get(n.id, 0) + 1
+    mod_consts = {k: v for k, v in mod_consts.items() if stores.get(k) == 1 and k not in shadowed}
+
+    class T(ast.NodeTransformer):
+        def __init__(self):
+            self.cls = None
+
+        def visit_ClassDef(self, node):
+            prev, self.cls = self.cls, node.name
+            self.generic_visit(node)
+            self.cls = prev
+            return node
+
+        def fmt_of(self, e):
+            if isinstance(e, ast.Name) and e.id in mod_consts:
+                return mod_consts[e.id]
+            if isinstance(e, ast.Attribute) and isinstance(e.value, ast.Name):
+                owner = self.cls if e.value.id in ("self", "cls") else e.value.id
+                return cls_consts.get(owner, {}).get(e.attr)
+            return None
+
+        def visit_Call(self, node):
+            self.generic_visit(node)
+            if isinstance(node.func, ast.Attribute) and node.func.attr in ("pack", "unpack", "unpack_from", "pack_into", "iter_unpack"):
+                f = self.fmt_of(node.func.value)
+                if f is not None:
+                    log.append("struct object %s.%s desugared at line %d" % (ast.unparse(node.func.value), node.func.attr, getattr(node, "lineno", 0)))
+                    new = ast.Call(func=ast.Attribute(value=ast.Name(id="struct", ctx=ast.Load()), attr=node.func.attr, ctx=ast.Load()),
+                                   args=[ast.Constant(value=f)] + list(node.args), keywords=list(node.keywords))
+                    return ast.copy_location(new, node)
+            return node
+
+        def visit_Attribute(self, node):
+            self.generic_visit(node)
+            if node.attr in ("size", "format") and isinstance(node.ctx, ast.Load):
+                f = self.fmt_of(node.value)
+                if f is not None:
+                    try:
+                        v = _struct.calcsize(f) if node.attr == "size" else f
+                    except _struct.error:
+                        return node
+                    return ast.copy_location(ast.Constant(value=v), node)
+            return node
+
+    T().visit(tree)
+    if log:
+        ast.fix_missing_locations(tree)
     return log
